@@ -1,6 +1,7 @@
 package gen
 
 import (
+	"bytes"
 	"encoding/binary"
 	"fmt"
 
@@ -555,10 +556,11 @@ func TIFFPendingShape(r *core.Rng) ([]byte, string) {
 		lowIdx[n-1-r.Intn(n/3+1)] = k // late entries
 	}
 	tags := []int{0x010e, 0x0131, 0x013b, 0x8298, 0x010f, 0x0110}
+	allKnown := r.Chance(1, 3) // every entry a tag whose value the reader fetches (duplicate ids are accepted)
 	for i := 0; i < n; i++ {
 		e := out[entries+12*i:]
 		tg := 0x7000 + i
-		if r.Chance(1, 8) {
+		if allKnown || r.Chance(1, 8) {
 			tg = tags[r.Intn(len(tags))]
 		}
 		o.PutUint16(e[0:], uint16(tg))
@@ -759,7 +761,34 @@ func Shape(r *core.Rng) ([]byte, string) {
 	case 0, 1, 2:
 		return TIFFShape(r)
 	case 3:
-		return TIFFPendingShape(r)
+		t, d := TIFFPendingShape(r)
+		if r.Chance(1, 3) {
+			// the same directory as the CMT1 block of a CR3 file (or the Exif item of a HEIF file)
+			// whose boxes announce the whole block, the file ending somewhere inside it: the Exif
+			// reader meets the end of its source through a box
+			full, _ := TIFFPendingShape(r)
+			cutAt := len(full) - r.Pick(0, 1, 5, len(full)/4, len(full)/2)
+			if r.Chance(2, 3) && len(full) > 16 {
+				// right behind the directory (or a few values later): nearly every reference is pending
+				nEnt := int(full[8]) | int(full[9])<<8
+				if full[0] == 'M' {
+					nEnt = int(full[8])<<8 | int(full[9])
+				}
+				if e := 8 + 2 + 12*nEnt + 4 + r.Pick(0, 1, 10, 60); e < len(full) {
+					cutAt = e
+				}
+			}
+			if r.Bool() {
+				out := Ftyp("crx ", 1, "crx ", "isom").Serialise(nil)
+				out = append(out, rawBox("moov", rawBox("uuid", append(append([]byte{}, UUIDCanonMeta...), rawBox("CMT1", full)...)))...)
+				return out[:len(out)-(len(full)-cutAt)], "cr3-" + d + fmt.Sprintf(" cut=%d", len(full)-cutAt)
+			}
+			h := BuildHEIF(r, full, r.Intn(16))
+			if i := bytes.Index(h, full[:16]); i >= 0 {
+				return h[:i+cutAt], "heif-" + d + fmt.Sprintf(" cut=%d", len(full)-cutAt)
+			}
+		}
+		return t, d
 	case 4:
 		return PNGBackShape(r)
 	case 5:
